@@ -5,7 +5,11 @@ import AscentVerif.Driver.Engine
 import AscentVerif.Driver.UF
 import AscentVerif.Driver.TrInd
 import AscentVerif.Driver.EngDs
+import AscentVerif.Driver.TrRelInd
+import AscentVerif.Driver.EqRel
+import AscentVerif.Driver.Check
 open AscentVerif AscentVerif.Driver
+open AscentVerif.Driver.Trp (handleTrp TrpStore)
 
 structure St where
   idx : Store := []
@@ -13,6 +17,8 @@ structure St where
   uf : UFStore := {}
   tri : TriStore := {}
   dsx : DsStore := {}
+  trp : TrpStore := []
+  eq : EqStore := {}
 
 def step (st : St) (line : String) : St × String :=
   match Sexp.parseLine line with
@@ -40,6 +46,21 @@ def step (st : St) (line : String) : St × String :=
     match handleDsx st.dsx rest with
     | some (s', out) => ({ st with dsx := s' }, out)
     | none => (st, "bad-op")
+  | some (.atom "trp" :: rest) =>
+    match handleTrp st.trp rest with
+    | some (s', out) => ({ st with trp := s' }, out)
+    | none => (st, "bad-op")
+  | some (.atom "eq" :: rest) =>
+    match handleEq false st.eq rest with
+    | some (s', out) => ({ st with eq := s' }, out)
+    | none => (st, "bad-op")
+  | some (.atom "ceq" :: rest) =>
+    match handleEq true st.eq rest with
+    | some (s', out) => ({ st with eq := s' }, out)
+    | none => (st, "bad-op")
+  | some (.atom "eqtwin" :: rest) => (st, (handleEqTwin rest).getD "bad-op")
+  | some (.atom "chk" :: rest) => (st, (handleChk rest).getD "bad-op")
+  | some (.atom "chkc" :: rest) => (st, (handleChkCount rest).getD "bad-op")
   | some (.atom "eng" :: rest) =>
     match handleEng st.eng rest with
     | some (s', out) => ({ st with eng := s' }, out)
